@@ -101,7 +101,7 @@ structure RestoreOpts where
 
 /-- `InfoFiles.all_info_files` + `TrashedFiles.all_trashed_files`: the entries, in scan order -/
 def restoreEntriesOf (fs : FS) (cwd : CPath) (trashDir volume : Bytes) : List Entry :=
-  let infoDir := pjoin (normpath trashDir) (b "info")
+  let infoDir := pjoin trashDir (b "info")      -- InfoFiles.all_info_files: the directory as spelled (no normpath)
   match listdirStr fs cwd infoDir with
   | none => []
   | some ns =>
